@@ -49,6 +49,7 @@ type Hook struct {
 
 type LoopContract struct {
 	Enter      []Action // ghost assignments executed on loop entry
+	Exit       []Action // ghost assignments executed when the loop ends at its head (not by break or return)
 	Anchor     string
 	Invariants []*Clause
 	Decreases  *Clause
@@ -139,6 +140,7 @@ type Contracts struct {
 	RawSMT      []string          // raw declarations added to every verification context
 	GhostHeaps  map[string]string // global ghost state: name -> sort
 	Globals     map[string][]string // package-level variables declared immutable after init: name -> props
+	Growing     map[string][]string // struct T growing f... props P...: the only container fields of T that may grow
 }
 
 func NewContracts() *Contracts {
@@ -344,6 +346,21 @@ func (cs *Contracts) ParseFile(path string) error {
 				return err
 			}
 			curLoop.Enter = append(curLoop.Enter, Action{Kind: "set", Var: strings.TrimSpace(parts[0]), C: c})
+		case "exit":
+			// exit set var = expr: when the loop's own test ends it (the edge from the loop head out of the loop)
+			if curLoop == nil {
+				return fail(fmt.Errorf("exit outside loop"))
+			}
+			r2 := strings.TrimSpace(strings.TrimPrefix(strings.TrimSpace(rest), "set"))
+			parts := strings.SplitN(r2, "=", 2)
+			if len(parts) != 2 {
+				return fail(fmt.Errorf("exit set var = expr"))
+			}
+			c, err := parseClause(parts[1], path, ln)
+			if err != nil {
+				return err
+			}
+			curLoop.Exit = append(curLoop.Exit, Action{Kind: "set", Var: strings.TrimSpace(parts[0]), C: c})
 		case "decreases":
 			c, err := parseClause(rest, path, ln)
 			if err != nil {
@@ -442,6 +459,18 @@ func (cs *Contracts) ParseFile(path string) error {
 				cs.Fields[fs[0]] = fm
 			}
 			cs.FieldModes[fs[0]] = append(cs.FieldModes[fs[0]], fm)
+		case "struct":
+			// struct T growing f1 f2 ... props P...: a closed-world frame for a long-lived object - elements are
+			// inserted only into the listed map/slice fields of T (each of which has its own contracts)
+			fs := strings.Fields(rest)
+			if len(fs) < 2 || fs[1] != "growing" {
+				return fail(fmt.Errorf("struct T growing f... [props ...]"))
+			}
+			if cs.Growing == nil {
+				cs.Growing = map[string][]string{}
+			}
+			cs.Growing[fs[0]] = fs[2:]
+			cur, curLoop, curHook = nil, nil, nil
 		case "global":
 			// global NAME immutable props P...: the package-level variable is only assigned by the package initialiser
 			fs := strings.Fields(rest)
